@@ -204,12 +204,12 @@ bool huge_free(void* p) {
 // Non-terminating parses that do not pull on the stream (e.g. a loop that appends elements without consuming input)
 // show up as runaway allocation: more than RUNAWAY bytes requested through operator new (huge single requests
 // excluded) within ONE evaluation. A value built from an input of <= 8 KiB needs at most a few MiB (one object of a
-// few hundred bytes per input byte, geometric container growth at most doubles the total), so 128 MiB is far beyond
-// any terminating parse. When a guarded parse is running the evaluation is left through the escape hatch of do_parse
+// few hundred bytes per input byte, geometric container growth at most doubles the total), so 48 MiB is far beyond
+// any terminating parse (both counters restart with every guarded parse). When a guarded parse is running the evaluation is left through the escape hatch of do_parse
 // (class `hang`); otherwise the process exits with code 79.
 // The same goes for the NUMBER of requests within one guarded parse (a loop that allocates and frees a node per
 // iteration): a parse of <= 8 KiB needs a few allocations per input byte; 400000 is more than ten times that.
-constexpr uint64_t RUNAWAY = 128ull << 20;
+constexpr uint64_t RUNAWAY = 48ull << 20;
 constexpr uint64_t RUNAWAY_CALLS = 400000;
 uint64_t g_cum_alloc = 0;
 uint64_t g_parse_calls = 0;
@@ -275,6 +275,7 @@ void alloc_guard_reset(bool armed) {
 }
 void alloc_guard_parse_begin() {
   g_parse_calls = 0;
+  g_cum_alloc = 0;
   g_cum_armed = true;
 }
 }  // namespace vs
